@@ -114,13 +114,14 @@ type Specs struct {
 	LemmaOrd  []string
 	Ghosts    map[string]*GhostComp
 	Macros    map[string]*Macro
+	TagSets   map[string][]string
 }
 
 func newSpecs() *Specs {
-	return &Specs{Funcs: map[string]*FuncContract{}, SpecFuncs: map[string]*SpecFunc{}, Lemmas: map[string]*Lemma{}, Ghosts: map[string]*GhostComp{}, Macros: map[string]*Macro{}}
+	return &Specs{Funcs: map[string]*FuncContract{}, SpecFuncs: map[string]*SpecFunc{}, Lemmas: map[string]*Lemma{}, Ghosts: map[string]*GhostComp{}, Macros: map[string]*Macro{}, TagSets: map[string][]string{}}
 }
 
-var keywordRe = regexp.MustCompile(`^(func|extern|requires|ensures|modifies|loop|at|let|opt|spec|ghost|lemma|use|decreases|define|split)\b`)
+var keywordRe = regexp.MustCompile(`^(func|extern|requires|ensures|modifies|loop|at|let|opt|spec|ghost|lemma|use|decreases|define|split|tagset)\b`)
 var tagRe = regexp.MustCompile(`^\[([A-Za-z0-9, ]*)\]\s*`)
 var labelRe = regexp.MustCompile(`^([A-Za-z_][A-Za-z0-9_.]*):\s*`)
 
@@ -186,6 +187,19 @@ func (sp *Specs) loadFile(path string, commentOnly bool) error {
 			sp.SpecFuncs[sf.Name] = sf
 			sp.SpecOrder = append(sp.SpecOrder, sf.Name)
 			cur, curLemma = nil, nil
+		case "tagset":
+			// tagset NAME = C01, C02, ...
+			i := strings.Index(rest, "=")
+			if i < 0 {
+				return fail(fmt.Errorf("tagset NAME = ids"))
+			}
+			var ids []string
+			for _, t := range strings.Split(rest[i+1:], ",") {
+				if t = strings.TrimSpace(t); t != "" {
+					ids = append(ids, t)
+				}
+			}
+			sp.TagSets[strings.TrimSpace(rest[:i])] = ids
 		case "define":
 			// define name(a, b) = expr
 			i := strings.Index(rest, "(")
@@ -530,10 +544,17 @@ func parseLemmaHead(s string) (*Lemma, error) {
 	return lm, nil
 }
 
+var globalTagSets map[string][]string
+
 func hasTag(tags []string, t string) bool {
 	for _, x := range tags {
 		if x == t {
 			return true
+		}
+		for _, y := range globalTagSets[x] {
+			if y == t {
+				return true
+			}
 		}
 	}
 	return false
